@@ -81,7 +81,7 @@ def r1(ctx):
                         q in (TW + ".enqueue_req", TW + ".handle", TW + ".handle_request") or (isinstance(c.func, ast.Attribute) and c.func.attr in ("submit", "result", "sleep"))
                     if bad:
                         ctx.bad("C13.R1", key(f, "lock-held-across|" + norm(c.func)), site(f, c), "self._lock is held across `%s`: handler threads finishing a request would block (or deadlock) on the lock" % norm(c))
-    ctx.floor("C13.R1", "mutation sites of _keep / poller", n, 8)
+    ctx.floor("C13.R1", "mutation sites of _keep / poller", n, 5)
     fi = ctx.fn(repo.func(TW + ".init_process"))
     lk = [s for s in fi.cfg.stmts(ast.Assign) if any(tail(t) == "_lock" for t in s.ast.targets) and isinstance(s.ast.value, ast.Call) and "Lock" in norm(s.ast.value.func)]
     sup = [nn for c, q in repo.calls_in(fi) if q == "gunicorn.workers.base.Worker.init_process" for nn in nodes_with(fi, c)]
@@ -339,16 +339,21 @@ def r6(ctx):
     ff = repo.func(TW + ".finish_request")
     ctx.check("C13.R6", all(c.func.attr == "append" for c in method_calls(ff, ("append", "appendleft")) if tail(c.func.value) == "_keep"), key(ff, "newest-at-right"), site(ff),
               "finish_request does not queue re-armed connections at the newest end", "_keep.append (newest at the right)")
-    deltas = [s for s in g.stmts(ast.Assign) if isinstance(s.ast.value, ast.BinOp) and isinstance(s.ast.value.op, ast.Sub) and "timeout" in norm(s.ast.value)]
+    # the remaining life `<conn>.timeout - <now>` wherever it is computed (named temporary or inside the comparison)
+    deltas = [e for e in walk_own(f.node) if isinstance(e, ast.BinOp) and isinstance(e.op, ast.Sub) and "timeout" in norm(e)]
     ctx.need(deltas, "C13.R6: deadline - now not computed")
-    D = deltas[0].ast.targets[0].id
-    v = deltas[0].ast.value
-    ctx.check("C13.R6", tail(v.left) == "timeout" and isinstance(v.right, ast.Name), key(f, "delta"), site(f, deltas[0]), "delta is not `conn.timeout - now`", "delta = conn.timeout - now")
-    start = [s for s in g.nodes for b, l in deltas[0].out if b is s and l == "next"]
+    v = deltas[0]
+    ctx.check("C13.R6", tail(v.left) == "timeout" and isinstance(v.right, ast.Name), key(f, "delta"), site(f, v), "the remaining life is not `conn.timeout - now`", "conn.timeout - now")
+    start = nodes_with(f, v)
+
+    def atom_of(e):
+        if e is v:
+            return "DELTA"
+        return None
     rows = []
     for d in (-5, -0.001, 0, 0.001, 30):
-        ex = Explorer(f, frozen=[D])
-        outs = ex.run(start[0], {D: d}, stop=lambda n: n.kind == "join" and isinstance(n.stmt, ast.While), watch=dict([(n.id, "release") for n in dec] + [(n.id, "requeue") for n in back]))
+        ex = Explorer(f, atom_of=atom_of)
+        outs = ex.run(start[0], {"DELTA": d}, stop=lambda n: n.kind == "join" and isinstance(n.stmt, ast.While), watch=dict([(n.id, "release") for n in dec] + [(n.id, "requeue") for n in back]))
         got = set()
         for o in outs:
             got.add(("release" if "release" in o.events else "") + ("requeue" if "requeue" in o.events else "") + ("+continue" if o.kind == "stop" else "+stop-scan"))
